@@ -22,20 +22,32 @@ import (
 //	reset                a new node (empty registry, empty pool)
 //	propose              queueRequest of a new request            → proposed r<k> c<ch>
 //	proposefail          the same, the propose call is refused     → failed r<k> c<ch>
-//	applied <k> <res>    a goroutine calls Trigger(id_k, res); it is stopped BETWEEN the two parts of Trigger (hook after
-//	                     w.l.Unlock(), tools/instrument point trace:triggergap)  → applied r<k> reg | applied r<k> unreg | noop
-//	signal <k>           that Trigger is let go (stores, signals)  → signaled r<k> | nosignal | panic r<k>
+//	applied <k> <res>    a goroutine calls Trigger(id_k, res). It is stopped at the hook BETWEEN the delete and the store + signal
+//	                     of Trigger (tools/instrument point trace:triggergap) and the harness probes the registry lock: HELD
+//	                     (the code since fix 184e1b3) — the Trigger is let go at once and the op is ONE step; NOT held (the code
+//	                     before the fix) — it stays stopped until `signal`   → applied r<k> reg | applied r<k> unreg | noop | panic r<k>
+//	signal <k>           a stopped Trigger is let go (stores, signals)  → signaled r<k> | nosignal | panic r<k>
+//	                     (always nosignal on a tree whose Trigger signals under the lock)
 //	timeout <k>          the drop callback (cancel) of request k, then its wait function → gaveup r<k> | ended | both-ready
+//	giveup-in-window <k> <res>   THE RACE OF THE REPAIRED DEFECT: Trigger(id_k, res) is stopped at the hook, THEN request k is
+//	                     cancelled and its wait function runs on a second goroutine (only its ctx.Done() arm is ready). With
+//	                     the lock held the waiter's own Trigger(id_k, err) has to WAIT (checked: the wait function has not
+//	                     returned while the Trigger is stopped); the Trigger is let go, stores and signals, the waiter finds its
+//	                     id unregistered and pools a header whose channel HOLDS the signal   → applied r<k> reg; gaveup r<k>
+//	                     (on a tree whose Trigger dropped the lock: the waiter returns while the Trigger is still stopped and
+//	                     pools an EMPTY channel → applied r<k> reg; gaveup r<k> in-gap; the Trigger stays stopped until `signal`)
+//	                     | skip (request ended, unregistered, or its channel already holds a signal)
 //	wake <k>             the wait function of request k while its channel holds a signal → woke r<k> <res> | ended | blocked
 //
 // k is taken modulo the number of requests of the session; <res> is v<n> (v0 = nil) or e<n> (an error value); r<k> is the
 // k-th request of the session (= the model's id), c<ch> the channel it was registered with, numbered by first appearance
-// (= the model's allocation order). Everything that touches the pool runs on the executor goroutine with GOMAXPROCS = 1
-// and the collector off, so sync.Pool is the deterministic private-slot + LIFO structure the driver mirrors.
+// (= the model's allocation order). Everything that touches the pool runs with GOMAXPROCS = 1 and the collector off, so
+// sync.Pool is the deterministic private-slot + LIFO structure the driver mirrors.
 // Oracle (stated on the real code): a wait function that returns success must have been preceded by `applied` of ITS OWN
 // request with that result (early-wake); a request whose wait function returned is no longer registered
-// (registration-leak); log.Panicf of Trigger (chan-full-panic). Sessions in which a waiter gave up inside the Trigger window
-// of its own id are tagged @gap-giveup (known finding C04-trigger-gap).
+// (registration-leak); log.Panicf of Trigger (chan-full-panic); a waiter that gives up inside the Trigger window of its own
+// id although the lock is held (window-not-exclusive). Sessions in which a waiter gave up inside an OPEN window (lock not
+// held: the defect repaired by 184e1b3) are tagged @gap-giveup.
 func init() {
 	register(&Proto{Name: "waittable", Gen: genWaitTable, New: newWaitTable})
 }
@@ -47,13 +59,14 @@ func genWaitTable(rng *rand.Rand, tier string, emit func(string)) {
 		}
 		return "v" + strconv.Itoa(rng.Intn(4))
 	}
-	// fixed scenarios first: the three witness schedules of Props/C04Wait.lean and their clean counterparts
+	// fixed scenarios first: the witness schedules of Props/C04Wait.lean and their clean counterparts
 	for _, sc := range [][]string{
-		{"propose", "timeout 0", "propose", "wake 1", "applied 1 v7", "signal 1", "wake 1"},                             // stale signal of a give-up: replaced
-		{"propose", "timeout 0", "propose", "applied 0 v7", "signal 0", "wake 1", "applied 1 v3", "signal 1", "wake 1"}, // late apply of a request that gave up
-		{"propose", "applied 0 v7", "signal 0", "timeout 0", "propose", "wake 1", "applied 1 v0", "signal 1", "wake 1"}, // both ready: skipped
-		{"proposefail", "propose", "wake 1", "applied 1 e2", "signal 1", "wake 1", "propose", "propose", "applied 3 v1", "applied 2 v2", "signal 2", "signal 3", "wake 3", "wake 2"},
-		{"propose", "applied 0 v7", "timeout 0", "propose", "signal 0", "wake 1", "applied 1 v5", "signal 1", "propose", "wake 2"}, // the Trigger gap
+		{"propose", "timeout 0", "propose", "wake 1", "applied 1 v7", "wake 1"},                             // stale signal of a give-up: replaced
+		{"propose", "timeout 0", "propose", "applied 0 v7", "signal 0", "wake 1", "applied 1 v3", "wake 1"}, // late apply of a request that gave up
+		{"propose", "applied 0 v7", "timeout 0", "propose", "wake 1", "applied 1 v0", "wake 1", "wake 0"},   // both ready: skipped
+		{"proposefail", "propose", "wake 1", "applied 1 e2", "wake 1", "propose", "propose", "applied 3 v1", "applied 2 v2", "wake 3", "wake 2"},
+		// the race of the defect repaired by 184e1b3: the waiter gives up inside the Trigger of its own id (corpus/C04/waittable-trigger-gap.txt)
+		{"propose", "giveup-in-window 0 v7", "propose", "signal 0", "wake 1", "applied 1 v5", "signal 1", "wake 1", "propose", "wake 2"},
 	} {
 		emit("reset")
 		for _, l := range sc {
@@ -66,9 +79,7 @@ func genWaitTable(rng *rand.Rand, tier string, emit func(string)) {
 	}
 	for s := 0; s < sessions; s++ {
 		emit("reset")
-		gapFree := rng.Intn(3) != 0 // two thirds of the sessions keep every Trigger atomic w.r.t. the give-up of its own id
 		n := 0
-		inGap := map[int]bool{}
 		steps := 8 + rng.Intn(40)
 		for i := 0; i < steps; i++ {
 			pickReq := func() int {
@@ -82,40 +93,20 @@ func genWaitTable(rng *rand.Rand, tier string, emit func(string)) {
 				return rng.Intn(n)
 			}
 			switch r := rng.Intn(100); {
-			case r < 22 || n == 0:
+			case r < 24 || n == 0:
 				emit("propose")
 				n++
-			case r < 26:
+			case r < 28:
 				emit("proposefail")
 				n++
-			case r < 48:
-				k := pickReq()
-				emit(fmt.Sprintf("applied %d %s", k, res()))
-				inGap[k] = true
-				if gapFree || rng.Intn(2) == 0 {
-					emit(fmt.Sprintf("signal %d", k))
-					delete(inGap, k)
-				}
-			case r < 60:
-				if len(inGap) > 0 {
-					k := -1
-					for x := range inGap { // the oldest one (map order must not decide)
-						if k < 0 || x < k {
-							k = x
-						}
-					}
-					emit(fmt.Sprintf("signal %d", k))
-					delete(inGap, k)
-				} else {
-					emit(fmt.Sprintf("signal %d", pickReq()))
-				}
-			case r < 78:
-				k := pickReq()
-				if gapFree && inGap[k] {
-					emit(fmt.Sprintf("signal %d", k))
-					delete(inGap, k)
-				}
-				emit(fmt.Sprintf("timeout %d", k))
+			case r < 52:
+				emit(fmt.Sprintf("applied %d %s", pickReq(), res()))
+			case r < 62:
+				emit(fmt.Sprintf("giveup-in-window %d %s", pickReq(), res()))
+			case r < 65:
+				emit(fmt.Sprintf("signal %d", pickReq())) // nothing to let go on a tree whose Trigger signals under the lock
+			case r < 80:
+				emit(fmt.Sprintf("timeout %d", pickReq()))
 			default:
 				emit(fmt.Sprintf("wake %d", pickReq()))
 			}
@@ -257,6 +248,45 @@ func newWaitTable(c *Ctx) func(string) string {
 		}
 		return fmt.Sprintf("proposed r%d c%d", k, no)
 	}
+	// startTrigger runs Trigger(id, val) on its own goroutine up to the hook between its two parts. "reg": the id was
+	// registered, the goroutine is stopped there (let it go with close(p.release), then read p.done); "unreg": the id was not
+	// registered, the call is over.
+	startTrigger := func(r *wtReq, val interface{}) (*wtPause, string) {
+		p := &wtPause{reached: make(chan bool, 1), release: make(chan struct{}), done: make(chan string, 1)}
+		mu.Lock()
+		pending[r.id] = p
+		mu.Unlock()
+		go func() {
+			defer func() {
+				if x := recover(); x != nil {
+					p.done <- strings.SplitN(fmt.Sprint(x), "\n", 2)[0]
+					return
+				}
+				p.done <- ""
+			}()
+			vn.Trigger(r.id, val)
+		}()
+		select {
+		case reg := <-p.reached:
+			if reg {
+				c.Note("trigger-stopped-between-parts")
+				return p, "reg"
+			}
+			<-p.done
+			return p, "unreg"
+		case msg := <-p.done:
+			select {
+			case <-p.reached: // an unregistered id: the hook was passed and the call is over, both are ready
+				return p, "unreg"
+			default:
+			}
+			c.Violation("harness-hook", "wait.Trigger returned without passing the hook between its parts (instrument point trace:triggergap missing?) "+msg)
+			return p, "nohook"
+		case <-time.After(10 * time.Second):
+			c.Violation("harness-hook", "Trigger goroutine neither reached the hook nor returned")
+			return p, "stuck"
+		}
+	}
 	return func(line string) string {
 		f := strings.Fields(line)
 		if len(f) == 0 {
@@ -308,44 +338,111 @@ func newWaitTable(c *Ctx) func(string) string {
 			}
 			r := reqs[k]
 			r.applied[f[2]] = true
-			p := &wtPause{reached: make(chan bool, 1), release: make(chan struct{}), done: make(chan string, 1)}
-			mu.Lock()
-			pending[r.id] = p
-			mu.Unlock()
-			go func() {
-				defer func() {
-					if x := recover(); x != nil {
-						p.done <- strings.SplitN(fmt.Sprint(x), "\n", 2)[0]
-						return
+			p, st := startTrigger(r, val)
+			switch st {
+			case "unreg":
+				return fmt.Sprintf("applied r%d unreg", k)
+			case "reg":
+				if vn.ShardLocked(r.id) { // the store and the signal happen under the lock: nothing can come in between
+					c.Note("trigger-window-under-lock")
+					close(p.release)
+					if msg := <-p.done; msg != "" {
+						viol("chan-full-panic", fmt.Sprintf("Trigger of r%d: %s", k, msg))
+						dead = true
+						return fmt.Sprintf("panic r%d", k)
 					}
-					p.done <- ""
-				}()
-				vn.Trigger(r.id, val)
-			}()
-			select {
-			case reg := <-p.reached:
-				if reg {
-					if old := paused[k]; old != nil { // cannot happen: the second Trigger finds the id unregistered
-						close(old.release)
-					}
-					paused[k] = p
-					c.Note("trigger-stopped-in-gap")
 					return fmt.Sprintf("applied r%d reg", k)
 				}
-				<-p.done
-				return fmt.Sprintf("applied r%d unreg", k)
-			case msg := <-p.done:
-				select {
-				case <-p.reached: // an unregistered id: the hook was passed and the call is over, both are ready
-					return fmt.Sprintf("applied r%d unreg", k)
-				default:
+				c.Note("trigger-window-open")
+				if old := paused[k]; old != nil { // cannot happen: the second Trigger finds the id unregistered
+					close(old.release)
 				}
-				c.Violation("harness-hook", "wait.Trigger returned without passing the gap hook (instrument point trace:triggergap missing?) "+msg)
-				return fmt.Sprintf("applied r%d atomic", k)
-			case <-time.After(10 * time.Second):
-				c.Violation("harness-hook", "Trigger goroutine neither reached the gap hook nor returned")
-				return "applied-stuck"
+				paused[k] = p
+				return fmt.Sprintf("applied r%d reg", k)
 			}
+			return fmt.Sprintf("applied r%d %s", k, st)
+		case "giveup-in-window":
+			k, ok := arg(1)
+			if !ok || len(f) != 3 {
+				return "bad-op"
+			}
+			val, ok := parseRes(f[2])
+			if !ok {
+				return "bad-op"
+			}
+			if len(reqs) == 0 || reqs[k].ended || len(reqs[k].ch) != 0 || !vn.IsRegistered(reqs[k].id) {
+				return "skip"
+			}
+			r := reqs[k]
+			r.applied[f[2]] = true
+			p, st := startTrigger(r, val)
+			if st != "reg" {
+				return fmt.Sprintf("applied r%d %s", k, st)
+			}
+			if !vn.ShardLocked(r.id) {
+				// the window is OPEN (a tree whose Trigger drops the lock before it stores and signals): the waiter gets through
+				c.Note("trigger-window-open")
+				c.Note("give-up-inside-trigger-gap")
+				gapTag = "@gap-giveup"
+				paused[k] = p
+				if !vn.GiveUp(r.id) {
+					return "err:no-cancel"
+				}
+				_, err := r.fr.WaitRsp()
+				r.ended = true
+				if !node.VerifIsProposalCanceled(err) {
+					return fmt.Sprintf("applied r%d reg; gaveup r%d unexpected:%v", k, k, err)
+				}
+				checkLeak(k, "gave up")
+				return fmt.Sprintf("applied r%d reg; gaveup r%d in-gap", k, k)
+			}
+			c.Note("trigger-window-under-lock")
+			if !vn.GiveUp(r.id) {
+				close(p.release)
+				<-p.done
+				return "err:no-cancel"
+			}
+			wdone := make(chan error, 1)
+			go func() {
+				_, err := r.fr.WaitRsp()
+				wdone <- err
+			}()
+			for i := 0; i < 50; i++ { // one P: the waiter runs until it blocks (on the registry lock) or returns
+				runtime.Gosched()
+			}
+			early := false
+			var werr error
+			select {
+			case werr = <-wdone:
+				early = true
+				c.Violation("window-not-exclusive", fmt.Sprintf("the wait function of r%d returned (%v) while the Trigger of its id was stopped between delete and signal WITH the registry lock held", k, werr))
+			default:
+				c.Note("give-up-waits-for-trigger")
+			}
+			close(p.release)
+			if msg := <-p.done; msg != "" {
+				viol("chan-full-panic", fmt.Sprintf("Trigger of r%d: %s", k, msg))
+				dead = true
+				return fmt.Sprintf("panic r%d", k)
+			}
+			if !early {
+				select {
+				case werr = <-wdone:
+				case <-time.After(10 * time.Second):
+					c.Violation("harness-hook", fmt.Sprintf("the wait function of r%d did not return after its context was cancelled and the Trigger was let go", k))
+					dead = true
+					return "giveup-stuck"
+				}
+			}
+			r.ended = true
+			if !node.VerifIsProposalCanceled(werr) {
+				return fmt.Sprintf("applied r%d reg; gaveup r%d unexpected:%v", k, k, werr)
+			}
+			checkLeak(k, "gave up")
+			if early {
+				return fmt.Sprintf("applied r%d reg; gaveup r%d early", k, k)
+			}
+			return fmt.Sprintf("applied r%d reg; gaveup r%d", k, k)
 		case "signal":
 			k, ok := arg(1)
 			if !ok {
